@@ -12,6 +12,7 @@ import (
 	"net/http"
 	"net/http/httptest"
 	"os"
+	"reflect"
 	"runtime"
 	"strconv"
 	"strings"
@@ -19,6 +20,7 @@ import (
 	"sync/atomic"
 	"testing"
 	"time"
+	"unsafe"
 
 	pt "git.torproject.org/pluggable-transports/goptlib.git"
 	"git.torproject.org/pluggable-transports/snowflake.git/v2/common/event"
@@ -97,9 +99,85 @@ func (t *c15Tongue) Catch() (*WebRTCPeer, error) {
 	if !ok {
 		return nil, c15ErrCatch
 	}
-	p := &WebRTCPeer{closed: make(chan struct{})}
+	// a scripted peer has a (never connected) DataChannel as its transport, so that cleanup() has something to
+	// tear down: the driver can park a Close call inside that teardown (ops xb / xe)
+	p := &WebRTCPeer{closed: make(chan struct{}), transport: &webrtc.DataChannel{}}
 	t.peers = append(t.peers, p)
 	return p, nil
+}
+
+// c15Shut is the ground truth of "somebody has closed this peer": the state of its closed channel itself, not what
+// Closed() makes of it.
+func c15Shut(p *WebRTCPeer) bool {
+	select {
+	case <-p.closed:
+		return true
+	default:
+		return false
+	}
+}
+
+// c15Gate parks one Close call of a scripted peer inside cleanup(): pion's DataChannel.Close() begins with
+// d.mu.Lock(); the driver holds a read lock of that mutex, so the call waits there - after everything Close does
+// before the teardown, before everything it does after it - until the read lock is released.
+type c15Gate struct {
+	mu   *sync.RWMutex
+	done chan struct{}
+}
+
+func c15DCMutex(dc *webrtc.DataChannel) *sync.RWMutex {
+	f := reflect.ValueOf(dc).Elem().FieldByName("mu")
+	if !f.IsValid() || f.Type() != reflect.TypeOf(sync.RWMutex{}) {
+		return nil
+	}
+	return (*sync.RWMutex)(unsafe.Pointer(f.UnsafeAddr()))
+}
+
+// c15BeginClose starts peer.Close() and returns once that call is parked inside the teardown (a writer is waiting
+// for the mutex: TryRLock fails) or has returned without getting there.
+func c15BeginClose(peer *WebRTCPeer, patience time.Duration) *c15Gate {
+	mu := c15DCMutex(peer.transport)
+	if mu == nil {
+		return nil
+	}
+	mu.RLock()
+	g := &c15Gate{mu: mu, done: make(chan struct{})}
+	go func() {
+		defer close(g.done)
+		peer.Close()
+	}()
+	deadline := time.Now().Add(patience)
+	for spin := 0; ; spin++ {
+		if mu.TryRLock() {
+			mu.RUnlock()
+		} else {
+			return g // parked
+		}
+		select {
+		case <-g.done:
+			return g
+		default:
+		}
+		if spin < 2000 {
+			runtime.Gosched()
+			continue
+		}
+		if time.Now().After(deadline) {
+			return g
+		}
+		time.Sleep(200 * time.Microsecond)
+	}
+}
+
+// end lets the parked Close call go on and waits for it to return.
+func (g *c15Gate) end(patience time.Duration) bool {
+	g.mu.RUnlock()
+	select {
+	case <-g.done:
+		return true
+	case <-time.After(patience):
+		return false
+	}
 }
 
 // unfinished reports what an End call that has just returned must not find: rendezvous
@@ -108,7 +186,7 @@ func (t *c15Tongue) unfinished() (flying, open int) {
 	t.mu.Lock()
 	defer t.mu.Unlock()
 	for _, q := range t.peers {
-		if !q.Closed() {
+		if !c15Shut(q) {
 			open++
 		}
 	}
@@ -279,6 +357,21 @@ func c15RunPeers(maxS, waitS, script string) string {
 		return "!nopeers"
 	}
 	sc := &c15Scenario{tongue: t, peers: p, wait: time.Duration(waitMs) * time.Millisecond}
+	gates := map[int]*c15Gate{} // Close calls parked inside their teardown
+	defer func() {
+		for _, g := range gates {
+			g.end(time.Second)
+		}
+	}()
+	peerNo := func(arg string) (int, *WebRTCPeer) {
+		k, err := strconv.Atoi(arg)
+		t.mu.Lock()
+		defer t.mu.Unlock()
+		if err != nil || k < 0 || k >= len(t.peers) {
+			return -1, nil
+		}
+		return k, t.peers[k]
+	}
 	var out []string
 	dead := false
 	for _, op := range wire.List(script) {
@@ -374,21 +467,69 @@ func c15RunPeers(maxS, waitS, script string) string {
 			out = append(out, c15Oldest(&sc.ends))
 		case op == "n":
 			out = append(out, "n="+strconv.Itoa(p.Count()))
-		case strings.HasPrefix(op, "x"):
-			k, err := strconv.Atoi(op[1:])
-			t.mu.Lock()
-			var peer *WebRTCPeer
-			if err == nil && k >= 0 && k < len(t.peers) {
-				peer = t.peers[k]
-			}
-			t.mu.Unlock()
-			if peer == nil {
+		case strings.HasPrefix(op, "xb"):
+			// a Close call of peer k begins (remote close, staleness checker, data path) and is parked in its teardown
+			k, peer := peerNo(op[2:])
+			switch {
+			case peer == nil:
 				out = append(out, "-")
-			} else {
+			case gates[k] != nil || c15Shut(peer):
+				out = append(out, "skip")
+			default:
+				g := c15BeginClose(peer, sc.wait)
+				if g == nil {
+					return "!nogate"
+				}
+				gates[k] = g
+				sc.settle()
+				out = append(out, "xb")
+			}
+		case strings.HasPrefix(op, "xe"):
+			k, peer := peerNo(op[2:])
+			switch {
+			case peer == nil:
+				out = append(out, "-")
+			case gates[k] == nil:
+				out = append(out, "skip")
+			default:
+				ok := gates[k].end(sc.wait + time.Second)
+				delete(gates, k)
+				sc.settle()
+				if ok {
+					out = append(out, "xe")
+				} else {
+					out = append(out, "xe-hung")
+				}
+			}
+		case strings.HasPrefix(op, "x"):
+			k, peer := peerNo(op[1:])
+			switch {
+			case peer == nil:
+				out = append(out, "-")
+			case gates[k] != nil:
+				// sync.Once: this call would wait for the teardown in progress
+				out = append(out, "skip")
+			default:
 				peer.Close()
 				sc.settle()
 				out = append(out, "x")
 			}
+		case strings.HasPrefix(op, "s") || strings.HasPrefix(op, "r"):
+			// s<k>: the last message from the proxy is older than SnowflakeTimeout (the staleness checker, which
+			// looks once per second, has not looked yet); r<k>: a message arrives
+			_, peer := peerNo(op[1:])
+			if peer == nil {
+				out = append(out, "-")
+				continue
+			}
+			peer.mu.Lock()
+			if op[0] == 's' {
+				peer.lastReceive = time.Now().Add(-SnowflakeTimeout - time.Minute)
+			} else {
+				peer.lastReceive = time.Now()
+			}
+			peer.mu.Unlock()
+			out = append(out, op[:1])
 		default:
 			return "!badcase"
 		}
@@ -400,7 +541,7 @@ func c15RunPeers(maxS, waitS, script string) string {
 	var closed strings.Builder
 	t.mu.Lock()
 	for _, q := range t.peers {
-		if q.Closed() {
+		if c15Shut(q) {
 			closed.WriteByte('1')
 		} else {
 			closed.WriteByte('0')
